@@ -55,6 +55,17 @@ def main():
       if k is re._compile or getattr(k, "__objclass__", None) is re.Pattern:  # pylint: disable=protected-access
         del regs[k]
 
+  if "weakref" in os.environ.get("VERIF_UNPATCH", "").split(","):
+    # CrossHair's weakref model calls gc.collect() on EVERY dereference to make
+    # dead references deterministic.  pytype reaches its Context through a
+    # weakref (utils.ContextWeakrefMixin.ctx) thousands of times per match and
+    # the Context is alive for the whole process, so the model only adds a full
+    # collection of pytype's heap per access (measured: > 90 % of a path's time).
+    import weakref  # pylint: disable=g-import-not-at-top
+    import crosshair.core  # pylint: disable=g-import-not-at-top
+    regs = crosshair.core._PATCH_REGISTRATIONS  # pylint: disable=protected-access
+    regs.pop(weakref.ref.__call__, None)
+
   t0 = time.time()
   out = {"module": mod_name, "fn": fn_name, "messages": []}
   try:
